@@ -10,6 +10,8 @@
 #include "rt.hpp"
 
 #include <linux/futex.h>
+#include <pthread.h>
+#include <time.h>
 #include <sys/syscall.h>
 #include <unistd.h>
 
@@ -87,6 +89,11 @@ struct Global {
     uint32_t cells_hi;
     int live;
     void (*fatal_cb)(const char*, const char*);
+    // watchdog (real time; fires only when the process makes no progress at all)
+    volatile uint64_t heartbeat;
+    volatile int in_run;
+    volatile uint64_t reports;     // sanitizer reports noted during this run
+    unsigned watchdog_s;
 };
 
 Global g;
@@ -206,6 +213,7 @@ void deadlock() {
 // The scheduling point.  final_exit: the caller is exiting and must not park.
 void schedule(bool final_exit = false) {
     g.st.steps++;
+    g.heartbeat++;
     if (int64_t(g.st.steps) > g.cfg.step_bound) {
         char buf[2048];
         describe(buf, sizeof buf);
@@ -514,6 +522,7 @@ bool rt_rng_degenerate() { return g.active && g.cfg.rng_degenerate != 0; }
 
 // ---- history / ledgers ------------------------------------------------------
 uint64_t rt_event(uint32_t kind, int64_t a, int64_t b) {
+    g.heartbeat++;
     if (g.nev >= EV_CAP) rt_fatal("machinery", "event log overflow");
     Event& e = g_ev[g.nev];
     e.seq = g.nev; e.tid = me; e.kind = kind; e.a = a; e.b = b;
@@ -521,6 +530,7 @@ uint64_t rt_event(uint32_t kind, int64_t a, int64_t b) {
 }
 const Event* rt_events(size_t* n) { *n = g.nev; return g_ev; }
 int64_t rt_cell_add(uint32_t idx, int64_t d) {
+    g.heartbeat++;
     if (idx >= RT_NCELLS) rt_fatal("machinery", "cell index out of range");
     if (idx >= g.cells_hi) g.cells_hi = idx + 1;
     return g_cells[idx] += d;
@@ -531,6 +541,35 @@ void rt_cell_set(uint32_t idx, int64_t v) {
     if (idx >= g.cells_hi) g.cells_hi = idx + 1;
     g_cells[idx] = v;
 }
+namespace {
+void* watchdog_main(void*) {
+    uint64_t last = g.heartbeat;
+    unsigned idle = 0;
+    for (;;) {
+        struct timespec ts = {1, 0};
+        nanosleep(&ts, nullptr);
+        if (!g.in_run || g.heartbeat != last) { last = g.heartbeat; idle = 0; continue; }
+        if (++idle >= g.watchdog_s) {
+            char buf[2048];
+            buf[0] = 0;
+            if (g.active) describe(buf, sizeof buf);
+            rt_fatal("hang_wallclock", buf);
+        }
+    }
+    return nullptr;
+}
+} // namespace
+void rt_start_watchdog(unsigned seconds) {
+    if (g.watchdog_s || seconds == 0) return;
+    g.watchdog_s = seconds;
+    pthread_t t;
+    pthread_create(&t, nullptr, watchdog_main, nullptr);
+    pthread_detach(t);
+}
+void rt_set_in_run(bool on) { g.in_run = on ? 1 : 0; g.heartbeat++; if (on) g.reports = 0; }
+void rt_note_report() { g.reports++; }
+uint64_t rt_report_count() { return g.reports; }
+
 void rt_ledger_reset() {
     if (g.cells_hi) memset(g_cells, 0, sizeof(int64_t) * g.cells_hi);
     g.cells_hi = 0;
